@@ -37,12 +37,19 @@ std::vector<long double> ref_nodes(int n)
 }
 void gen_interval(Src& s, double& a, double& b, double& ratio)
 {
-	switch(s.pick({2, 2, 2, 1}))
+	switch(s.pick({2, 2, 2, 1, 1}))
 	{
 		case 0:
 			a = -1;
 			b = 1;
 			break;
+		case 4:
+		{	// tiny intervals next to the origin (widths far below machine epsilon in absolute terms)
+			double hw = std::pow(10.0, s.uniform(-30, -9)), mid = s.coin() ? 0.0 : hw * s.uniform(-3, 3);
+			a = mid - hw;
+			b = mid + hw;
+			break;
+		}
 		case 1:
 		{	// far from the origin
 			double hw = std::pow(10.0, s.uniform(-3, 3)), mid = s.sign() * hw * std::pow(10.0, s.uniform(0, 3));
